@@ -4,6 +4,8 @@ import CoercionModel.Model.Routing
 import CoercionModel.Generated.F2
 import CoercionModel.Model.Skeletons
 import CoercionModel.Generated.F10
+import CoercionModel.Model.SkeletonsRest
+import CoercionModel.Generated.F14
 set_option linter.unusedSimpArgs false
 /-
   C07 — Cont-check failures are never lost; deferred checks always run once entered.
@@ -198,5 +200,9 @@ theorem facts_skeleton :
     Generated.F10.planPostChecks = Skeletons.planPostChecks ∧
     Generated.F10.smEnd = Skeletons.smEnd := by
   decide
+
+/-- the engine functions this property's model depends on only through their effects (group `deferredRest` of
+    Model/SkeletonsRest) still have the shape they were read with (regenerated from /repo on every run) -/
+theorem facts_skeleton_rest : Generated.F14.deferredRest = SkeletonsRest.deferredRest := by rfl
 
 end Coercion.C07
